@@ -109,13 +109,44 @@ def build(P):
     return A
 
 
+def read_effects(P, A, checks):
+    """Effects of on_batch that (re)fill the file set: direct `ActiveFileSet::read(set, ..)` calls and calls of the private helper
+    `Worker::read_file_set(self, set)` - the latter only on the strength of a sub-obligation on the helper's OWN MIR body:
+    every path through it calls `ActiveFileSet::read` exactly once, on its file-set parameter.
+    -> ([(effect, index of the file-set argument)], helper abstraction | None, [must-hold queries on the helper])"""
+    out = [(e, 0) for e in A.calls(r"^ActiveFileSet::read$")]
+    via = A.calls(r"^Worker::read_file_set$")
+    H, must = None, []
+    if via:
+        hb = [b for b in P.by_method.get("read_file_set", []) if b.self_ty == "Worker" and not b.is_closure]
+        checks.append(("helper Worker::read_file_set: exactly one MIR body (%d)" % len(hb), len(hb) == 1))
+        if len(hb) == 1:
+            H = cfgabs.Abstraction(P, hb[0], name="read_file_set")
+            hr = H.calls(r"^ActiveFileSet::read$")
+            checks.append(("helper read_file_set: one ActiveFileSet::read call site, on its file-set parameter _2 (%s)" % [H.derive(e.ops[0]) for e in hr],
+                           len(hr) == 1 and H.derive(hr[0].ops[0]) == "_2"))
+            checks.append(("helper read_file_set: no indirect call, has a return",
+                           not [e for e in H.effects if e.kind == "call" and e.method == "<indirect>"] and len(H.returns) > 0))
+            bad = []
+            for cb in cfgabs.nested_closures(P, hb[0]):
+                for blk in cb.blocks.values():
+                    t = blk.term
+                    if t and t[0] == "call" and re.search(r"ActiveFileSet.*::(read|apply_retention)\b|remove_file|open_new|open_existing", t[2]):
+                        bad.append(t[2][:60])
+            checks.append(("helper read_file_set: its closures contain no file-set / filesystem effect (%s)" % bad[:2], not bad))
+            if len(hr) == 1:
+                must = [("helper_read_file_set_calls_read_on_every_path", H, [_or([b_and(r.guard, b_not(hr[0].guard)) for r in H.returns])])]
+                out += [(e, 1) for e in via]
+    return out, H, must
+
+
 def _need(A, what, lst, checks):
     checks.append(("anchor: %s found in the MIR of on_batch (%d call sites)" % (what, len(lst)), len(lst) > 0))
     return lst
 
 
 WATCHED = r"(Option::take|write_event|EventBatch::advance|EventBatch::current|::flush|::sync_all|ActiveFileSet::read|apply_retention|" \
-          r"try_open_create|try_open_reuse|remove_file|open_new|open_existing|BatchError::retry|create_dir_all)$"
+          r"try_open_create|try_open_reuse|remove_file|open_new|open_existing|BatchError::retry|create_dir_all|read_file_set)$"
 
 
 def obligations(P, A, native_for=None):
@@ -129,7 +160,8 @@ def obligations(P, A, native_for=None):
     adv = _need(A, "EventBatch::advance", A.calls(r"^EventBatch::advance$"), checks)
     cur = _need(A, "EventBatch::current", A.calls(r"^EventBatch::current$"), checks)
     retry = _need(A, "BatchError::retry", A.calls(r"^BatchError::retry$"), checks)
-    read = _need(A, "ActiveFileSet::read", A.calls(r"^ActiveFileSet::read$"), checks)
+    reads, H, helper_must = read_effects(P, A, checks)
+    read = _need(A, "ActiveFileSet::read (directly or through Worker::read_file_set)", [e for e, _ in reads], checks)
     reten = _need(A, "ActiveFileSet::apply_retention", A.calls(r"^ActiveFileSet::apply_retention$"), checks)
     create = _need(A, "ActiveFile::try_open_create", A.calls(r"^ActiveFile::try_open_create$"), checks)
     reuse = _need(A, "ActiveFile::try_open_reuse", A.calls(r"^ActiveFile::try_open_reuse$"), checks)
@@ -240,10 +272,12 @@ def obligations(P, A, native_for=None):
     vr_b = _or([b_and(c.guard, b_not(A.some_before(c, read))) for c in create])
 
     def concretise(ctx, qname, cand):
+        if not qname.endswith("create_only_after_read_of_the_file_set"):
+            return "inconclusive", "abstract counter-path for %s; candidate only" % qname
         if native_for is None:
             return "inconclusive", "no native concretisation available"
         labels = [c["effect"] for c in cand]
-        roll = any("try_open_create" in l for l in labels) and not any("ActiveFileSet::read" in l for l in labels) \
+        roll = any("try_open_create" in l for l in labels) and not any("ActiveFileSet::read" in l or "read_file_set" in l for l in labels) \
             and any("Option::filter" in l for l in labels) and not any("create_dir_all" in l for l in labels)
         if not roll:
             return "inconclusive", "candidate path is not of the shape this unit can concretise (active file present, rolled in-process)"
@@ -259,8 +293,9 @@ def obligations(P, A, native_for=None):
                                    "that was never read -> try_open_create; concretised as 6 one-event batches one minute apart, max_files = 3")
 
     obs.append(CfgObligation(
-        "K3_r1_retention_before_every_create", [A], [FN], bounds,
-        [("create_only_after_apply_retention", A, [vr_a]), ("create_only_after_read_of_the_file_set", A, [vr_b])],
+        "K3_r1_retention_before_every_create", [A] + ([H] if H is not None else []),
+        [FN] + (["emit_file::Worker::read_file_set"] if H is not None else []), bounds,
+        [("create_only_after_apply_retention", A, [vr_a]), ("create_only_after_read_of_the_file_set", A, [vr_b])] + helper_must,
         [("path_reaches_try_open_create_after_read", A, [_or([b_and(c.guard, A.some_before(c, read)) for c in create])])],
         [("FALSE_create_only_after_try_open_reuse", A, [_or([b_and(c.guard, b_not(A.some_before(c, reuse))) for c in create])])],
         concretise=concretise, static_checks=checks))
@@ -328,11 +363,13 @@ def r3_obligation(P, A):
     # on_batch: the two paths
     create = A.calls(r"^ActiveFile::try_open_create$")
     reuse = A.calls(r"^ActiveFile::try_open_reuse$")
-    read = A.calls(r"^ActiveFileSet::read$")
+    reads, H, helper_must = read_effects(P, A, checks)
+    read = [e for e, _ in reads]
     cfn = A.calls(r"^ActiveFileSet::current_file_name$")
     pushes = A.calls(r"^PathBuf::push$")
     must = []
-    if len(create) == 1 and len(reuse) == 1 and len(read) == 1 and len(cfn) == 1:
+    sets = sorted(set(A.derive(e.ops[i]) for e, i in reads))
+    if len(create) == 1 and len(reuse) == 1 and len(read) >= 1 and len(cfn) == 1 and len(sets) == 1:
         pc_, pu_ = create[0].args[1], reuse[0].args[1]
         push_c = [e for e in pushes if e.args[0] == pc_]
         push_u = [e for e in pushes if e.args[0] == pu_]
@@ -340,7 +377,7 @@ def r3_obligation(P, A):
         checks.append(("on_batch: try_open_create gets a PathBuf made from self.dir (%s), pushed to once with the result of file_name(..) (%s)" % (
             dc, [A.derive(e.ops[1])[:24] for e in push_c]),
             re.fullmatch(r"from\(clone\(_1\.1\(Worker\)\.dir\)\)", dc) is not None and len(push_c) == 1 and A.derive(push_c[0].ops[1]).startswith("file_name(")))
-        setv = A.derive(read[0].ops[0])
+        setv = sets[0]
         checks.append(("on_batch: try_open_reuse gets a PathBuf made from self.dir (%s), pushed to once with the payload of current_file_name "
                        "of the file set `read` filled (%s)" % (du, [A.derive(e.ops[1])[:40] for e in push_u]),
                        du == "from(_1.1(Worker).dir)" and len(push_u) == 1 and
@@ -353,18 +390,19 @@ def r3_obligation(P, A):
                     ("reuse_after_its_push", A, [b_and(reuse[0].guard, b_not(A.some_before(reuse[0], push_u)))]),
                     ("current_file_name_only_after_read", A, [b_and(cfn[0].guard, b_not(A.some_before(cfn[0], read)))])]
     else:
-        checks.append(("on_batch: one call site each of try_open_create, try_open_reuse, read, current_file_name", False))
+        checks.append(("on_batch: one call site each of try_open_create, try_open_reuse, current_file_name, and reads of one file set (%s)" % sets, False))
     # apply_retention, per iteration: from < push < remove_file
     v = _or([b_and(x.guard, b_not(_or([b_and(f.guard, p.guard) for f in frm for p in psh
                                       if f.node[1] == x.node[1] and p.node[1] == x.node[1] and R.before(f, p) and R.before(p, x)])))
              for x in rem])
     must.append(("retention_removes_only_dir_joined_with_one_popped_member", R, [v]))
+    must += helper_must
     wit = [("retention_reaches_remove_file_twice", R, [b_and(*[x.guard for x in rem[:2]])] if len(rem) >= 2 else [False]),
            ("on_batch_reaches_try_open_reuse", A, [_or([e.guard for e in reuse])])]
     false = [("FALSE_remove_file_never_called", R, [_or([x.guard for x in rem])]),
              ("FALSE_create_only_after_reuse_push", A, [_or([b_and(c.guard, b_not(A.some_before(c, [e for e in pushes if e.args[0] != c.args[1]]))) for c in create])])]
     return CfgObligation(
-        "K3_r3_only_own_paths_reach_the_filesystem", [A, R, C, U],
+        "K3_r3_only_own_paths_reach_the_filesystem", [A, R, C, U] + ([H] if H is not None else []),
         [FN, "emit_file::ActiveFileSet::apply_retention", "emit_file::ActiveFile::try_open_create", "emit_file::ActiveFile::try_open_reuse"],
         "static provenance of the path arguments over single-definition def chains + precedence queries on all abstract paths of the four bodies "
         "(apply_retention's loop unrolled 2 iterations); WHICH names `read` admits into the set (membership = starts_with(prefix) && ends_with(ext)) "
